@@ -18,6 +18,16 @@ def plan(profiles, quick=800, thorough=30000, nopar=False, **kw):
     return d
 
 
+def plan_release(profiles, thorough=6000):
+    """thorough tier only: the same layouts from a release-profile build of crate and harness
+    (debug assertions off: whatever sits inside debug_assert! is not evaluated)"""
+    d = plan(profiles, quick=0, thorough=thorough)
+    d["profile"] = "release"
+    d["tiers"] = ["thorough"]
+    d["thorough"] = {"cases": thorough}
+    return d
+
+
 def plan_nopar(profiles, quick=200, thorough=4000):
     """the same layouts from the build without the `parallel` feature (code under cfg(feature))"""
     return plan(profiles, quick=quick, thorough=thorough, nopar=True)
@@ -36,19 +46,19 @@ TRACE = LAYOUT + ["trace", "thread"]
 PROPS = {
     "C01": {
         "statement": "Scenario.C01_isolation: in every trace of the plan of every registration sequence, two systems open at the same time have non-conflicting declarations",
-        "engines": [plan("plan,flat,funnel,batch"), trace("flat,base,batch,funnel"), plan_nopar("plan,funnel,batch")],
+        "engines": [plan("plan,flat,funnel,batch"), trace("flat,base,batch,funnel"), plan_nopar("plan,funnel,batch"), plan_release("plan,funnel,batch")],
         "aspects": TRACE,
         "assumptions": [RAYON, CELL],
     },
     "C02": {
         "statement": "Scenario.C02_dependencies: D A precedes F B in every trace whenever B was registered with A among its dependencies",
-        "engines": [plan("deps,plan,batch"), trace("deps,base", quick=40, **{"long-holds": True}), plan_nopar("deps,plan")],
+        "engines": [plan("deps,plan,batch"), trace("deps,base", quick=40, **{"long-holds": True}), plan_nopar("deps,plan"), plan_release("deps,plan,barriers")],
         "aspects": TRACE,
         "assumptions": [RAYON],
     },
     "C03": {
         "statement": "Scenario.C03_barriers",
-        "engines": [plan("barriers,plan,batch"), trace("barriers,batch", quick=40), plan_nopar("barriers,batch")],
+        "engines": [plan("barriers,plan,batch"), trace("barriers,batch", quick=40), plan_nopar("barriers,batch"), plan_release("barriers,deps,batch")],
         "aspects": TRACE,
         "assumptions": [RAYON],
     },
@@ -93,7 +103,7 @@ PROPS = {
     },
     "C10": {
         "statement": "C10_skipped_stage_justified (+ simulation by the five-table builder)",
-        "engines": [plan("plan,deps,barriers,funnel"), plan_nopar("plan,deps,barriers,funnel")],
+        "engines": [plan("plan,deps,barriers,funnel"), plan_nopar("plan,deps,barriers,funnel"), plan_release("plan,deps,barriers,funnel")],
         "aspects": ["layout", "outcome", "maxthreads"],
         "assumptions": [],
     },
@@ -136,7 +146,7 @@ PROPS = {
     },
     "C18": {
         "statement": "add_panics_iff / add_ok / resolve_error_iff",
-        "engines": [plan("malformed,funnel,plan,funnel", quick=400, **{"max-n": 40}), plan_nopar("malformed,plan")],
+        "engines": [plan("malformed,funnel,plan,funnel", quick=400, **{"max-n": 40}), plan_nopar("malformed,plan"), plan_release("malformed,plan,funnel")],
         "aspects": ["outcome", "query"],
         "assumptions": ["panic payloads are compared as text (quoted name)"],
     },
@@ -144,13 +154,16 @@ PROPS = {
         "statement": "C19_layout_invariant (relabelled / permuted / duplicated declarations give identical executed and printed tables, for every registration sequence), C19_names_irrelevant, C19_insert_invariant",
         "engines": [{"engine": "invariance", "args": {"dump-layouts": "/verif/evidence/.C19.layouts"}, "quick": {"cases": 300}, "thorough": {"cases": 6000, "process-every": 25}},
                     {"engine": "invariance", "args": {"process-every": 0, "compare-layouts": "/verif/evidence/.C19.layouts"}, "quick": {"cases": 300}, "thorough": {"cases": 6000}, "nopar": True},
-                    plan("plan,batch", quick=150)],
+                    plan("plan,batch", quick=150),
+                    # thorough tier: the release-profile build must lay every sequence out like the dev-profile build did
+                    {"engine": "invariance", "args": {"process-every": 0, "compare-layouts": "/verif/evidence/.C19.layouts"}, "thorough": {"cases": 6000}, "profile": "release", "tiers": ["thorough"]},
+                    plan_release("plan,deps,barriers,batch")],
         "aspects": ["layout", "outcome", "debug"],
         "assumptions": ["ahash's per-process random state is what varies between processes"],
     },
     "C20": {
         "statement": "Scenario.C20_printed_is_executed + byte-for-byte Debug text",
-        "engines": [plan("malformed,plan,batch"), plan_nopar("malformed,plan,batch")],
+        "engines": [plan("malformed,plan,batch"), plan_nopar("malformed,plan,batch"), plan_release("malformed,plan,batch")],
         "aspects": ["debug", "layout", "outcome"],
         "assumptions": [],
     },
